@@ -5,6 +5,7 @@ import Capella.Model.XmlSpec
 import Capella.Model.XmlEdit
 import Capella.Model.XmlNsUpdate
 import Capella.Model.XmlLoose
+import Capella.Model.XmlBytes
 import Capella.Gen.Ns
 namespace Capella.Driver.Xml
 open Lean Capella.Driver Capella.Xml
@@ -104,6 +105,11 @@ def firstBad : List Edit → Doc → Nat → Option Nat
 
 def handle (op : String) (j : Json) : Except String Json := do
   match op with
+  | "xml.encode" =>
+    -- `s.encode("utf-8")` and the width the writer adds for a tag
+    let s ← getStr j "s"
+    pure (Json.mkObj [("bytes", Json.arr ((encodeUtf8 s).map fun (n : Nat) => Json.num (JsonNumber.fromNat n)).toArray),
+      ("width", utf8Len s), ("chars", s.length)])
   | "xml.history" =>
     -- C02: an observed step of an API history as a script of modelled edits: the contract `okAll` the theorems
     -- assume, and whether the script really leads from the tree before to the tree after
